@@ -63,6 +63,33 @@ def wrap_return(rng, depth: int) -> bytes:
     return body
 
 
+def pressure(rng, neutral=True) -> bytes:
+    """grow the stack by n items with one of the growing instructions (close
+    to / over a small item limit), then drop them again"""
+    n = rng.choice((1, 1, 2, 3, 4, 6))
+    k = rng.choice(('copy', 'copy', 'dup', 'depth', 'push', 'split', 'mixed'))
+    if k == 'copy':
+        g = O('TRUE') + O('COPY') + bytes([n - 1]) if n > 1 else O('TRUE')
+    elif k == 'dup':
+        g = O('TRUE') + O('DUP') * (n - 1)
+    elif k == 'depth':
+        g = O('DEPTH') * n
+    elif k == 'push':
+        g = b''.join(isa.push(rbytes(rng, rng.choice((1, 2, 33, 65))))
+                     for _ in range(n))
+    elif k == 'split':
+        g = isa.push(rbytes(rng, n + 1))
+        for _ in range(n - 1):
+            g += isa.push(b'\x01') + O('SPLIT')
+    else:
+        g = O('TRUE') + O('DUP') + O('COPY') + bytes([max(n - 2, 0)])
+        n = max(n, 2)
+    if not neutral:
+        n = rng.randrange(0, n + 1)
+    return g + (O('POP1') + bytes([n]) if n != 1 or rng.random() < 0.5
+                else O('POP0'))
+
+
 def witness(rng, lock_info) -> bytes:
     """adversarial witness; lock_info: dict with the handles / keys / items
     the lock consumes."""
@@ -88,6 +115,8 @@ def witness(rng, lock_info) -> bytes:
             cnt = rng.randrange(0, 3)
             parts.append(b''.join(isa.push(rbytes(rng, 2)) for _ in range(cnt))
                          + O('WRITE_CACHE') + bytes([len(k)]) + k + bytes([cnt]))
+        elif r < 0.62:
+            parts.append(pressure(rng, rng.random() < 0.7))
         elif r < 0.7:
             parts.append(isa.push(rbytes(rng, rng.choice((1, 2, 32)))))  # junk
         elif r < 0.8:
@@ -115,8 +144,10 @@ def lock(rng):
     pre = []
     for _ in range(rng.randrange(0, 3)):
         k = rng.choice(('if', 'ifelse', 'try', 'tryerr', 'call', 'loop',
-                        'eval', 'nestedif'))
-        if k == 'if':
+                        'eval', 'nestedif', 'pressure'))
+        if k == 'pressure':
+            pre.append(pressure(rng))
+        elif k == 'if':
             pre.append(O('TRUE') + isa.IF(b''))
         elif k == 'ifelse':
             pre.append(O('FALSE') + isa.IF_ELSE(O('FALSE'), b''))
